@@ -38,7 +38,8 @@ Record inview := mkIv { v_valid : bool; v_mod : bool; v_val : Z; v_lmt : Z }.
 Definition behaviour := nat -> Z -> Z -> list inview -> sched -> list op.
 
 (* ---- dynamic state ---- *)
-Record nst := mkN { n_started : bool; n_sch : sched; n_runs : Z; n_val : option Z; n_lmt : Z }.
+Record nst := mkN { n_started : bool; n_sch : sched; n_runs : Z; n_val : option Z; n_lmt : Z;
+                     n_evals : Z (* times the graph evaluated the node: lifecycle before_node_evaluation *) }.
 
 Record gst := mkG {
   g_now : Z;
@@ -48,7 +49,7 @@ Record gst := mkG {
   g_log : list line;         (* observations, newest first *)
   g_err : Z }.               (* 0 = running; otherwise the error kind that escaped *)
 
-Definition init_n : nst := mkN false empty_sched 0 None MIN_DT.
+Definition init_n : nst := mkN false empty_sched 0 None MIN_DT 0.
 Definition dflt_cfg : ncfg := mkCfg false false false 0 [].
 
 Definition emit (l : line) (g : gst) : gst :=
@@ -111,8 +112,8 @@ Definition snapshot (code : Z) (i : nat) (now k : Z) (s : sched) (extra : Z) : l
     ++ tagq now 1 s ++ tagq now 2 s ++ tagq now 3 s ++ [extra].
 
 (* ---- one operation of user code ---- *)
-Definition set_sch (s : sched) (n : nst) : nst := mkN (n_started n) s (n_runs n) (n_val n) (n_lmt n).
-Definition set_out (v now : Z) (n : nst) : nst := mkN (n_started n) (n_sch n) (n_runs n) (Some v) now.
+Definition set_sch (s : sched) (n : nst) : nst := mkN (n_started n) s (n_runs n) (n_val n) (n_lmt n) (n_evals n).
+Definition set_out (v now : Z) (n : nst) : nst := mkN (n_started n) (n_sch n) (n_runs n) (Some v) now (n_evals n).
 
 Definition do_op (cfgs : list ncfg) (i : nat) (started : bool) (opi : Z) (o : op) (g : gst) : gst :=
   if negb (g_err g =? 0) then g else
@@ -153,7 +154,7 @@ Fixpoint do_ops (cfgs : list ncfg) (i : nat) (started : bool) (opi : Z) (os : li
   end.
 
 (* ---- node.cpp start_impl ---- *)
-Definition set_started (n : nst) : nst := mkN true (n_sch n) (n_runs n) (n_val n) (n_lmt n).
+Definition set_started (n : nst) : nst := mkN true (n_sch n) (n_runs n) (n_val n) (n_lmt n) (n_evals n).
 
 Definition start_node (cfgs : list ncfg) (beh : behaviour) (i : nat) (g : gst) : gst :=
   if negb (g_err g =? 0) then g else
@@ -182,7 +183,8 @@ Definition start_graph (cfgs : list ncfg) (beh : behaviour) (start : Z) : gst :=
   if negb (g_err g1 =? 0) then g1 else seed_cache g1.
 
 (* ---- node.cpp evaluate_impl ---- *)
-Definition inc_runs (n : nst) : nst := mkN (n_started n) (n_sch n) (n_runs n + 1) (n_val n) (n_lmt n).
+Definition inc_runs (n : nst) : nst := mkN (n_started n) (n_sch n) (n_runs n + 1) (n_val n) (n_lmt n) (n_evals n).
+Definition inc_evals (n : nst) : nst := mkN (n_started n) (n_sch n) (n_runs n) (n_val n) (n_lmt n) (n_evals n + 1).
 
 Definition iv_line (v : inview) : line := [b2z (v_valid v); b2z (v_mod v); v_val v; v_lmt v].
 
@@ -221,7 +223,7 @@ Fixpoint scan (cfgs : list ncfg) (beh : behaviour) (i : nat) (k : nat) (g : gst)
       if negb (g_err g =? 0) then g else
       let sc := slot_at i g in
       let g' :=
-        if sc =? g_now g then eval_node cfgs beh i (emit [11; Z.of_nat i; g_now g] g)
+        if sc =? g_now g then eval_node cfgs beh i (upd_node i inc_evals (emit [11; Z.of_nat i; g_now g] g))
         else if g_now g <? sc then
           (if sc <? g_nst g then mkG (g_now g) (g_slots g) sc (g_nodes g) (g_log g) (g_err g) else g)
         else g in
